@@ -175,6 +175,6 @@ def _run(case):
 
 
 PARTS = [
-    Part('isoshape-pairs', _run, strategy=_strategy, examples={'quick': 240, 'thorough': 6000},
+    Part('isoshape-pairs', _run, strategy=_strategy, case_timeout=240, examples={'quick': 240, 'thorough': 6000},
          floors={'misleading-names': 0.5}),
 ]
